@@ -103,7 +103,7 @@ fn shard(exe: &str, path: &str, from: usize, to: usize, outpath: &str) -> (usize
                 "{}",
                 serde_json::json!({"e":"Reset","run":run,"idx":idx,"kind":sc["kind"],"fam":drive::family(sc["kind"].as_str().unwrap_or("")),
                     "hint":"exact","len":sc["len"].as_u64().unwrap_or(0),"src":[],"start":0,"end":0,"threads":0,"profile":if cfg!(debug_assertions) {"dbg"} else {"rel"},
-                    "consuming":false,"pnext":0,"revive":0,"dpanic":0,"tag":if sc["tag"].is_null() {serde_json::json!("")} else {sc["tag"].clone()},"aborted":true})
+                    "consuming":false,"pnext":0,"revive":0,"dpanic":0,"cpanic":0,"tag":if sc["tag"].is_null() {serde_json::json!("")} else {sc["tag"].clone()},"aborted":true})
             )
             .unwrap();
             writeln!(
